@@ -58,6 +58,11 @@ TYPED = (
     "EXDATE;TZID=Etc/UTC:20240102T120000", "DTSTART;TZID=GMT:20240102T120000", "DTEND;TZID=/UTC:20240102T120000",
     "RDATE;VALUE=PERIOD;TZID=UTC:20240102T120000/PT1H", "RECURRENCE-ID;TZID=Zulu:20240102T120000", "DTSTART;TZID=Etc/GMT+5:20240102T120000",
     "DTSTART;TZID=Africa/Abidjan:20240102T120000", "EXDATE;TZID=UTC:20240102T120000",
+    # a TZID parameter on a DATE value (exporters write it on all-day events)
+    "DTSTART;VALUE=DATE;TZID=Europe/Berlin:20240301", "DUE;TZID=Europe/Berlin;VALUE=DATE:20240302", "RDATE;VALUE=DATE;TZID=Europe/Berlin:20240301,20240302",
+    # the ends of the INTEGER range (RFC 5545 3.3.8) and of rule-part ranges
+    "SEQUENCE:-2147483648", "SEQUENCE:2147483647", "PRIORITY:-2147483647", "RRULE:FREQ=DAILY;COUNT=2147483647",
+    "RRULE:FREQ=YEARLY;BYMONTHDAY=-31,31;BYYEARDAY=-366;BYWEEKNO=-53,53;BYSETPOS=-366,366", "RRULE:FREQ=MINUTELY;BYSECOND=60;BYMINUTE=59;BYHOUR=23",
     "TRIGGER:-P1W", "DURATION:P2W", "TRIGGER:+PT15M", "TRIGGER;RELATED=END:+P1DT2H", "DURATION:PT0S", "TRIGGER:-PT0H0M0S", "DURATION:P1DT0H0M0S",
 )
 MENU40 = (
